@@ -13,6 +13,16 @@ pub const OPS: &[&str] = &[
     "drop",
     "clone",
     "eq",
+    // == between two long lists in every relation: the number of stack frames must not depend on
+    // where, or how often, they differ (seed C16-b: one frame per mismatching position)
+    "ne-everywhere",
+    "ne-alternate",
+    "ne-first",
+    "ne-last",
+    "ne-tail",
+    "ne-length",
+    "datum-ne-everywhere",
+    "datum-ne-last",
     "to_string",
     "to_vec-print",
     "to_writer",
@@ -50,6 +60,48 @@ pub const OPS: &[&str] = &[
     "serde-from_str",
     "serde-to_string",
 ];
+
+/// The other operand of a `ne-*` comparison: same shape as `build("cons-new", ..)`, differing
+/// from it as the pattern says.
+fn build_other(pattern: &str, n: usize, dotted: bool) -> Value {
+    let tail = match (pattern, dotted) {
+        ("tail", true) => Value::Null,
+        ("tail", false) => Value::symbol("t"),
+        (_, true) => Value::symbol("t"),
+        (_, false) => Value::Null,
+    };
+    let len = if pattern == "length" { n - 1 } else { n };
+    let mut acc = tail;
+    for i in (0..len).rev() {
+        let differ = match pattern {
+            "everywhere" => true,
+            "alternate" => i % 2 == 0,
+            "first" => i == 0,
+            "last" => i == len - 1,
+            _ => false,
+        };
+        let x = if differ { (i + 1) % 10 } else { i % 10 } as u64;
+        acc = Value::Cons(Cons::new(Value::from(x), acc));
+    }
+    acc
+}
+
+fn text_other(pattern: &str, n: usize, dotted: bool) -> String {
+    let mut s = String::with_capacity(n * 3 + 8);
+    s.push('(');
+    for i in 0..n {
+        if i > 0 {
+            s.push(' ');
+        }
+        let differ = pattern == "everywhere" || (pattern == "last" && i == n - 1);
+        s.push(char::from(b'0' + ((if differ { i + 1 } else { i }) % 10) as u8));
+    }
+    if dotted {
+        s.push_str(" . t");
+    }
+    s.push(')');
+    s
+}
 
 fn text_of(n: usize, dotted: bool) -> String {
     let mut s = String::with_capacity(n * 3 + 8);
@@ -156,6 +208,15 @@ pub fn child_listop(c: &J) -> String {
                 std::mem::forget(v);
                 return format!("ok {}", d);
             }
+            "datum-ne-everywhere" | "datum-ne-last" => {
+                let pattern = op.strip_prefix("datum-ne-").unwrap();
+                let d = lexpr::datum::from_reader(text_of(n, dotted).as_bytes()).expect("parse");
+                let e = lexpr::datum::from_reader(text_other(pattern, n, dotted).as_bytes()).expect("parse");
+                let same = d == e;
+                std::mem::forget(d);
+                std::mem::forget(e);
+                return if same { "err == returned true for different data".into() } else { "ok 0".into() };
+            }
             "parse-reader-datum" | "parse-str-datum" | "datum-drop" | "datum-clone" | "datum-eq" | "datum-list_iter" | "datum-into-value" => {
                 let t = text_of(n, dotted);
                 let parse = |t: &str| if op == "parse-str-datum" { lexpr::datum::from_str(t).expect("parse") } else { lexpr::datum::from_reader(t.as_bytes()).expect("parse") };
@@ -239,6 +300,14 @@ pub fn child_listop(c: &J) -> String {
                 let same = v == w;
                 std::mem::forget(w);
                 same as usize
+            }
+            "ne-everywhere" | "ne-alternate" | "ne-first" | "ne-last" | "ne-tail" | "ne-length" => {
+                let w = build_other(op.strip_prefix("ne-").unwrap(), n, dotted);
+                let same = v == w;
+                let same2 = w == v;
+                std::mem::forget(w);
+                std::mem::forget(v);
+                return if same || same2 { "err == returned true for different lists".into() } else { "ok 0".into() };
             }
             "to_string" => lexpr::to_string(&v).expect("print").len(),
             "to_vec-print" => lexpr::to_vec(&v).expect("print").len(),
@@ -327,6 +396,8 @@ fn routes_for(op: &str) -> Vec<&'static str> {
         vec!["text"]
     } else if op == "drop" || op == "clone" || op == "eq" {
         vec!["constructor", "cons-new", "parser", "serde", "uniform-nil", "uniform-null", "uniform-bool", "uniform-float", "uniform-char", "uniform-string", "uniform-symbol", "uniform-keyword", "uniform-bytes", "uniform-vector", "uniform-pair"]
+    } else if op.starts_with("ne-") {
+        vec!["constructor", "cons-new", "parser"]
     } else if op == "build-only" {
         vec!["constructor", "cons-new", "parser", "serde"]
     } else if op == "to_string" || op == "cons.into_vec" || op == "into_iter-half" || op == "list_iter-half" || op == "cons.to_vec" {
@@ -386,7 +457,7 @@ pub fn run(ctx: &Ctx) -> Report {
     }
     let sub = Sub::new(
         "operations",
-        "every public operation that walks a list (parse from str/slice/reader as value and datum, print to String/Vec/writer/Display, the to_vec family, the three iterators exhausted and dropped half-way, positional and association indexing, is_list, clone, ==, drop; Datum clone/==/drop/list_iter/into Value; Serde to_value/from_value/from_str/to_string) x {proper, dotted} x construction routes (Value::append, Cons::new chain, parser, Serde), each in a child process on a thread with the stated stack; a baseline at n = 8 shows the constant part fits; non-trivial = completed at n > 1000",
+        "every public operation that walks a list (parse from str/slice/reader as value and datum, print to String/Vec/writer/Display, the to_vec family, the three iterators exhausted and dropped half-way, positional and association indexing, is_list, clone, == (equal operands and operands differing everywhere / at alternate positions / first / last element / tail / length), drop; Datum clone/==/drop/list_iter/into Value; Serde to_value/from_value/from_str/to_string) x {proper, dotted} x construction routes (Value::append, Cons::new chain, parser, Serde), each in a child process on a thread with the stated stack; a baseline at n = 8 shows the constant part fits; non-trivial = completed at n > 1000",
         &format!("{} cases; (stack, n) in {:?}; the O(n^2) datum-from-str parse at (256 KiB, 2^15)", cases.len(), configs),
     );
     let obs = run_children(&cases, ctx.threads.min(16), 120, "c16");
